@@ -116,7 +116,15 @@ def reference(im):
     ismax = (ptr == np.arange(N)) & interior.ravel()
     root = ptr.copy()
     hops = (root != np.arange(N)).astype(int)
-    while True:
+    if N > 16384:
+        # large images: pointer doubling (log steps); hop counts are then only lower bounds
+        while True:
+            nxt = root[root]
+            if np.array_equal(nxt, root):
+                break
+            hops += (nxt != root)
+            root = nxt
+    while N <= 16384:
         nxt = root[root]
         moved = nxt != root
         if not moved.any():
